@@ -510,7 +510,7 @@ class Observed(object):
     pass
 
 
-def run_real_session(wd, probe, argv, script, random_choice=None, cpu_count=1):
+def run_real_session(wd, probe, argv, script, random_choice=None, cpu_count=1, selection=()):
     """one real session; returns Observed: status, starts (classified), run order, file texts"""
     conf = os.path.join(wd, 'test.conf')
     order = {}
@@ -542,8 +542,13 @@ def run_real_session(wd, probe, argv, script, random_choice=None, cpu_count=1):
         disk.append([read_text(os.path.join(wd, f)) for f in probe.files])
         return script(rec)
     try:
-        res = drive.run_session(wd, [conf] + list(argv), snapshotting, random_choice=random_choice,
+        import datetime as _dt
+        launched_at = _dt.datetime.now(_dt.timezone.utc)
+        # options, the configuration, then the names of selected experiments (argparse wants them adjacent)
+        res = drive.run_session(wd, ([conf] + list(argv)) if not selection else (list(argv) + [conf] + list(selection)),
+                                snapshotting, random_choice=random_choice,
                                 cpu_count=cpu_count)
+        returned_at = _dt.datetime.now(_dt.timezone.utc)
         n_starts_at_return = len(res.starts)
         import threading as _th
         alive_at_return = [t.name for t in _th.enumerate() if t.name.startswith('BenchmarkThread') and t.is_alive()]
@@ -580,6 +585,7 @@ def run_real_session(wd, probe, argv, script, random_choice=None, cpu_count=1):
     ob.stdout = res.stdout
     ob.stderr = res.stderr
     ob.files = [read_text(os.path.join(wd, f)) for f in probe.files]
+    ob.launched_at, ob.returned_at = launched_at, returned_at
     ob.disk_at_start = disk
     ob.reloaded = reloaded
     ob.threads_left = leftover
